@@ -66,6 +66,15 @@ def cases(tier, seed):
     # Kahan-type triangular matrices (1 on the diagonal, -1 above, conjugated by unit quaternions): every LU pivot is 1, sigma_min ~ 2^-n
     for n_ in (56, 64):
         out.append({"key": f"rank/kahan/n={n_}", "grp": "rank", "m": n_, "n": n_, "vals": None, "kU": "xf", "kV": "xf", "kahan": True})
+    # Moore determinant of Hermitian non-singular matrices whose leading k x k principal block is singular (c c^H): an elimination without
+    # pivoting meets a rounding-level pivot
+    for n_ in (4, 5, 6):
+        for k_ in (2, 3):
+            for t in range(3):
+                out.append({"key": f"moore/singlead/n={n_}/k={k_}/t={t}", "grp": "moore", "n": n_, "singlead": k_, "t": t})
+    # large determinants: the product of all 4n real singular values overflows long before the Dieudonne determinant itself does
+    for n_ in (64, 96):
+        out.append({"key": f"bigdet/n={n_}", "grp": "bigdet", "n": n_})
     # exact integer rank-one outer products with one long dimension: the default threshold scales with max(m, n)
     for m, n in ((2, 128), (2, 300), (300, 2), (128, 2), (3, 200), (2, 400)):
         for t in range(3):
@@ -230,6 +239,21 @@ def run_case(case, seed):
             fails.append(fail("input_unchanged", "argument modified", **tags))
         return {"key": case["key"], "fails": fails, "nontrivial": r > 0, "digest": digest(A, "rank"),
                 "path": f"r<{'p' if r < min(m, n) else '=p'},nullR={min(n - r, 2)},nullL={min(m - r, 2)},mult={min(info['max_mult'], 2)}", "obs": [f["clause"] for f in fails]}
+    if grp == "bigdet":
+        n = case["n"]
+        A = fill.quat(n, n, bits=2, lo=-12, hi=12)  # entries of size ~1.7: |det| ~ e^(0.8 n)... well inside the double range, det^4 is not
+        sv_ = O.svals(A)
+        logd = float(np.sum(np.log(sv_)))
+        ok, d = call(u.det, G.to_quat(A), "Dieudonne")
+        tags = {"grp": "bigdet", "n": n}
+        if not ok or not np.isfinite(float(d)) or float(d) <= 0 or abs(math.log(float(d)) - logd) > 1e-8 * max(1.0, abs(logd)):
+            fails.append(fail("dieudonne=prod_sigma", f"n={n}: det = {d!r}, log(prod sigma_i) = {logd!r} (prod = {math.exp(logd) if logd < 700 else 'overflow'})", fn="det", **tags))
+        h = n // 2
+        A1, A2 = A[:h, :h], A[h:, h:]
+        ok2, r2 = call(lambda: (u.det(G.to_quat(A1), "Dieudonne"), u.det(G.to_quat(A2), "Dieudonne"), u.det(G.to_quat(O.qmatmul(A1, A2)), "Dieudonne")))
+        if not ok2 or not all(np.isfinite(float(x)) for x in r2) or abs(math.log(float(r2[2])) - math.log(float(r2[0])) - math.log(float(r2[1]))) > 1e-8 * (1 + abs(math.log(float(r2[2])))):
+            fails.append(fail("det_multiplicative", f"n={h}: det(A1 A2) = {r2[2] if ok2 else r2!r} vs det(A1) det(A2)", fn="det", **tags))
+        return {"key": case["key"], "fails": fails, "nontrivial": True, "digest": digest(A, "bigdet"), "path": "bigdet", "obs": [f["clause"] for f in fails]}
     if grp == "rank1long":
         m, n = case["m"], case["n"]
         a = fill.quat_int(m, 1, -3, 3).astype(float)
@@ -320,7 +344,20 @@ def run_case(case, seed):
     # Moore determinant
     n = case["n"]
     lay = "C"
-    if case.get("xf"):
+    if case.get("singlead"):
+        k_ = case["singlead"]
+        Bh = fill.quat(n, n, bits=3, lo=-12, hi=12)
+        A = 0.5 * (Bh + O.qH(Bh))
+        cvec = fill.quat(k_, 1, bits=2, lo=-6, hi=6)
+        if not cvec.any():
+            cvec[0, 0, 1] = 1.0
+        cvec = cvec / (3.0 if case["t"] else 1.0)  # t = 0: exactly singular leading block (dyadic); t > 0: singular up to rounding
+        A[:k_, :k_] = O.qmatmul(cvec, O.qH(cvec))
+        for i in range(n):
+            A[i, i, 1:] = 0.0
+        A = 0.5 * (A + O.qH(A))
+        lam = O.eigvals_herm(A).tolist()
+    elif case.get("xf"):
         A, lay = xf_build(case["xf"], n, n, fill, hermitian=True)
         lam = O.eigvals_herm(A).tolist()
     else:
